@@ -5,6 +5,7 @@ import (
 	"encoding/csv"
 	"encoding/json"
 	"fmt"
+	"github.com/arr-ai/arrai/pkg/fu"
 	"sort"
 	"strconv"
 	"strings"
@@ -1012,6 +1013,52 @@ func checkC13(w *core.W) {
 	c.runCSV()
 	c.runValues()
 	c.runDocs()
+	c13EncoderReuse(w)
+}
+
+// c13EncoderReuse: one configured encoder applied to several documents in one evaluation
+// must give, for each, exactly what a fresh encoder gives (an encoder must not keep state -
+// a shared output buffer, say - between calls; earlier results must not change).
+func c13EncoderReuse(w *core.W) {
+	docs := []string{`{"k": "v"}`, `[true, null]`, `"s"`, `[1, 2, 3]`, `{"a": {"b": [1]}}`, `0`}
+	encoders := []string{"//encoding.json.encoder(())", "//encoding.json.encoder((strict: false))", "//encoding.json.encode",
+		"//encoding.yaml.encoder(())", "//encoding.yaml.encode", "//encoding.json.encoder((indent: '  '))"}
+	k := 0
+	for _, enc := range encoders {
+		dec := "//encoding.json.decode"
+		if strings.Contains(enc, "strict: false") {
+			dec = "//encoding.json.decoder((strict: false))"
+		}
+		for i, a := range docs {
+			for j, b := range docs {
+				k++
+				if !w.Mine(k) {
+					continue
+				}
+				enc, dec, a, b, i, j := enc, dec, a, b, i, j
+				w.Case(func() string {
+					return "encoder-reuse|" + enc + " ## one encoder on documents " + a + " and " + b
+				}, func() {
+					shared := obs.Run("let e = " + enc + "; let d = " + dec + "; let x = e(d('" + a + "')); let y = e(d('" + b + "')); let z = e(d('" + a + "')); [x, y, z]")
+					fresh := obs.Run("[" + enc + "(" + dec + "('" + a + "')), " + enc + "(" + dec + "('" + b + "')), " + enc + "(" + dec + "('" + a + "'))]")
+					w.Eval(i != j)
+					if shared.Panic != "" || fresh.Panic != "" {
+						return // crashes are reported by the document families
+					}
+					ks, kf := "error", "error"
+					if shared.OK() {
+						ks = fu.Repr(shared.V)
+					}
+					if fresh.OK() {
+						kf = fu.Repr(fresh.V)
+					}
+					if ks != kf {
+						w.Fail("wrong", "encoder-reuse|"+strings.SplitN(strings.TrimPrefix(enc, "//encoding."), ".", 2)[0]+"|results-differ-from-fresh-encoder", "let e = "+enc+"; [e(d("+a+")), e(d("+b+")), e(d("+a+"))]", ks+"  vs fresh  "+kf)
+					}
+				})
+			}
+		}
+	}
 }
 
 var C13 = core.Check{
